@@ -12,7 +12,7 @@ DISTINCT_RULE = (
 RULES = ["blotter", "blotter-order", "filter"]
 MINIMA = {"quick": {"rule_blotter": 20000, "rule_blotter-order": 100000, "rule_filter": 20000}, "thorough": {"rule_blotter": 600000}}
 ASSUMPTIONS = ["shadow list = orders for which Transaction.place_order returned True (includes replacements placed by the execution)"]
-WEIGHTS = [("hostile", 3), ("multi", 3), ("event", 2), ("fastlat", 2)]
+WEIGHTS = [("hostile", 3), ("multi", 3), ("event", 2), ("fastlat", 2), ("recorded_event", 1)]
 
 
 def plan(tier, seed):
